@@ -1,25 +1,38 @@
 import CasbinV.Proto
 import CasbinV.Driver.Effect
-/-! Line-protocol driver: `driver <family>`; one answer line per input line; `#` lines are echoed. -/
+/-! Line-protocol driver: `driver <family>`; exactly one answer line per input line.
+    Lines starting with `#` are echoed; `#reset` also resets a stateful family to its initial state.
+    Unknown or malformed lines answer `bad-op` (never defaulted). -/
 
-/-- stateless families: fields ↦ answer -/
-def statelessFamilies : List (String × (List String → String)) := [
-  ("effect", Casbin.Driver.Effect.handle)
+/-- a family: state, initial state, one step (fields ↦ new state, answer) -/
+structure Family where
+  σ : Type
+  init : σ
+  step : σ → List String → σ × String
+
+def stateless (f : List String → String) : Family := { σ := Unit, init := (), step := fun _ fs => ((), f fs) }
+
+def families : List (String × Family) := [
+  ("effect", stateless Casbin.Driver.Effect.handle)
 ]
 
-partial def loopStateless (h : IO.FS.Stream) (out : IO.FS.Stream) (f : List String → String) : IO Unit := do
+partial def runFamily (h out : IO.FS.Stream) (fam : Family) (s : fam.σ) : IO Unit := do
   let line ← h.getLine
   if line.isEmpty then return ()
-  if line.startsWith "#" then out.putStr line
-  else out.putStrLn (f (Proto.fields line))
-  loopStateless h out f
+  if line.startsWith "#" then
+    out.putStr line
+    if line.startsWith "#reset" then runFamily h out fam fam.init else runFamily h out fam s
+  else
+    let (s', ans) := fam.step s (Proto.fields line)
+    out.putStrLn ans
+    runFamily h out fam s'
 
 def main (args : List String) : IO UInt32 := do
   let stdin ← IO.getStdin
   let stdout ← IO.getStdout
   match args with
-  | [fam] =>
-    match statelessFamilies.lookup fam with
-    | some f => loopStateless stdin stdout f; stdout.flush; return 0
-    | none => IO.eprintln s!"unknown family {fam}"; return 2
+  | [name] =>
+    match families.lookup name with
+    | some fam => runFamily stdin stdout fam fam.init; stdout.flush; return 0
+    | none => IO.eprintln s!"unknown family {name}"; return 2
   | _ => IO.eprintln "usage: driver <family>"; return 2
